@@ -198,7 +198,17 @@ func (w *hostileWorld) base(r *sim.Rand) (tcpip.NetworkProtocolNumber, []byte) {
 			return ipv6.ProtocolNumber, codec.IPv6([]byte(B6), []byte(A6), codec.ProtoICMPv6, 255, codec.EncodeICMPv6([]byte(B6), []byte(A6), 135, 0, 0, body))
 		}
 		inner := codec.IPv6([]byte(A6), []byte(B6), codec.ProtoUDP, 64, codec.EncodeUDP([]byte(A6), []byte(B6), 5353, 9000, nil))
-		return ipv6.ProtocolNumber, codec.IPv6([]byte(B6), []byte(A6), codec.ProtoICMPv6, 64, codec.EncodeICMPv6([]byte(B6), []byte(A6), 2, 0, 1280, inner))
+		if r.Chance(0.5) {
+			// the quoted packet is a fragment of the stack's own: next header 44, then 0-16 bytes of what
+			// should be an 8-byte fragment header followed by the transport header
+			frag := append([]byte{codec.ProtoUDP, 0, 0, 0, 0, 0, 0, 7}, codec.EncodeUDP([]byte(A6), []byte(B6), 5353, 9000, nil)...)
+			inner = codec.IPv6([]byte(A6), []byte(B6), 44, 64, frag[:r.Intn(17)])
+		}
+		typ, code, rest := uint8(2), uint8(0), uint32(1280)
+		if r.Chance(0.3) {
+			typ, code, rest = 1, 4, 0 // destination unreachable: port unreachable
+		}
+		return ipv6.ProtocolNumber, codec.IPv6([]byte(B6), []byte(A6), codec.ProtoICMPv6, 64, codec.EncodeICMPv6([]byte(B6), []byte(A6), typ, code, rest, inner))
 	case 10: // IPv6 TCP SYN to nobody
 		seg := codec.EncodeTCP([]byte(B6), []byte(A6), &codec.TCPSeg{SrcPort: 1234, DstPort: 80, Seq: 1, Flags: codec.FlagSYN, Window: 100})
 		return ipv6.ProtocolNumber, codec.IPv6([]byte(B6), []byte(A6), codec.ProtoTCP, 64, seg)
